@@ -12,6 +12,12 @@
 //!     -> B:<bodyhex>:<sighex>:<nfds> L:<handles whose descriptor is still there> H:<headerhex|err> D:<decoded>
 //!   (an optional 14th argument X:<serial|->:<sighex|-|e>:<num_fds|-> of `m` sets dynheader.serial/signature/num_fds to stale values)
 //!   r <m args> <body2> <serial2>   marshal, decode, replace the DECODED message's body by body2, marshal with serial2 -> R:ok B:.. H:..
+//!   M <m args with body big:<nbytes>:<seed>:<sighex>:<nfds>>   like `m`, the body is BUILT HERE from the descriptor (nbytes >= 4: u32
+//!                              nbytes-4 in the message's byte order, then the 251-byte block of LCG(seed) repeated; below 4: zeros);
+//!                              body bytes are printed as #<len>.<crc32 hex> in B: and in N:
+//!   ww <m args> ; <m args> ; ..   ALL the messages are sent, in order, through ONE connection (send_message_write_all each; a
+//!                              message that does not marshal is skipped by the library); a thread reads the peer end to EOF
+//!     -> S:<o|e per message> W:<hex of everything the peer read|->
 //!   w <m args>                 send through a real connection (send_message_write_all), bytes read at the peer -> B:.. W:<hex|err>
 //!   g <hex>                    bytes written to the peer end of a fresh connection, RecvConn::get_next_message -> G:<err|ok fields N:ok:body:sig:nfds>
 //!   s <name> <args..>          a standard_messages constructor (then treated like `m`, serial = 1st arg)
@@ -82,7 +88,62 @@ fn typ_no(t: MessageType) -> u8 {
     }
 }
 
+fn crc32(data: &[u8]) -> u32 {
+    let mut table = [0u32; 256];
+    for i in 0..256u32 {
+        let mut c = i;
+        for _ in 0..8 {
+            c = if c & 1 != 0 { 0xEDB8_8320 ^ (c >> 1) } else { c >> 1 };
+        }
+        table[i as usize] = c;
+    }
+    let mut c = 0xFFFF_FFFFu32;
+    for b in data {
+        c = table[((c ^ *b as u32) & 0xFF) as usize] ^ (c >> 8);
+    }
+    c ^ 0xFFFF_FFFF
+}
+
+/// body bytes as printed by the short forms: #<len>.<crc32>
+fn short_body(b: &[u8]) -> String {
+    format!("#{}.{:08x}", b.len(), crc32(b))
+}
+
+/// big:<nbytes>:<seed>:<sighex>:<nfds> - a body of nbytes built here (see the header comment)
+fn big_body(spec: &str, bo: ByteOrder) -> Option<MarshalledMessageBody> {
+    let r = spec.strip_prefix("big:")?;
+    let p: Vec<&str> = r.split(':').collect();
+    let nbytes: usize = p[0].parse().unwrap();
+    let mut x: u32 = p[1].parse().unwrap();
+    let sig = String::from_utf8(unhex(p[2])).expect("utf8 sig");
+    let n: usize = p[3].parse().unwrap();
+    let mut block = [0u8; 251];
+    for b in block.iter_mut() {
+        x = x.wrapping_mul(1103515245).wrapping_add(12345);
+        *b = (x >> 16) as u8;
+    }
+    let mut buf: Vec<u8> = Vec::with_capacity(nbytes);
+    if nbytes >= 4 {
+        let l = (nbytes - 4) as u32;
+        buf.extend_from_slice(&match bo {
+            ByteOrder::BigEndian => l.to_be_bytes(),
+            ByteOrder::LittleEndian => l.to_le_bytes(),
+        });
+        while buf.len() < nbytes {
+            let k = usize::min(251, nbytes - buf.len());
+            buf.extend_from_slice(&block[..k]);
+        }
+    } else {
+        buf.resize(nbytes, 0);
+    }
+    let fds: Vec<UnixFd> = (0..n).map(|_| new_fd()).collect();
+    Some(MarshalledMessageBody::from_parts(buf, 0, fds, sig, bo))
+}
+
 fn raw_body(spec: &str, bo: ByteOrder) -> Option<MarshalledMessageBody> {
+    if let Some(b) = big_body(spec, bo) {
+        return Some(b);
+    }
     let r = spec.strip_prefix("raw:")?;
     let p: Vec<&str> = r.split(':').collect();
     let buf = unhex(p[0]);
@@ -141,9 +202,12 @@ fn build_body(spec: &str, bo: ByteOrder) -> MarshalledMessageBody {
 }
 
 fn body_desc(msg: &MarshalledMessage) -> String {
+    body_desc_with(msg, false)
+}
+fn body_desc_with(msg: &MarshalledMessage, short: bool) -> String {
     format!(
         "B:{}:{}:{} L:{}",
-        bhex(msg.get_buf()),
+        if short { short_body(msg.get_buf()) } else { bhex(msg.get_buf()) },
         bhex(msg.get_sig().as_bytes()),
         msg.body.get_fds().len(),
         msg.body.get_raw_fds().len()
@@ -151,6 +215,9 @@ fn body_desc(msg: &MarshalledMessage) -> String {
 }
 
 fn decode(bytes: &[u8], nfds: usize) -> String {
+    decode_with(bytes, nfds, false)
+}
+fn decode_with(bytes: &[u8], nfds: usize, short: bool) -> String {
     let mut cursor = Cursor::new(bytes);
     let header = match unmarshal_header(&mut cursor) {
         Ok(h) => h,
@@ -188,7 +255,7 @@ fn decode(bytes: &[u8], nfds: usize) -> String {
         Ok(m) => {
             out.push_str(&format!(
                 " N:ok:{}:{}:{}:{}:{}",
-                bhex(m.get_buf()),
+                if short { short_body(m.get_buf()) } else { bhex(m.get_buf()) },
                 bhex(m.get_sig().as_bytes()),
                 m.body.get_fds().len(),
                 typ_no(m.typ),
@@ -201,18 +268,21 @@ fn decode(bytes: &[u8], nfds: usize) -> String {
 }
 
 fn marshal_and_back(msg: &MarshalledMessage, serial: u32) -> String {
+    marshal_and_back_with(msg, serial, false)
+}
+fn marshal_and_back_with(msg: &MarshalledMessage, serial: u32, short: bool) -> String {
     let mut buf = Vec::new();
     let serial = NonZeroU32::new(serial).expect("serial");
     match rustbus::wire::marshal::marshal(msg, serial, &mut buf) {
-        Err(_) => format!("{} H:err D:-", body_desc(msg)),
+        Err(_) => format!("{} H:err D:-", body_desc_with(msg, short)),
         Ok(()) => {
             let mut all = buf.clone();
             all.extend_from_slice(msg.get_buf());
             format!(
                 "{} H:{} D:{}",
-                body_desc(msg),
+                body_desc_with(msg, short),
                 bhex(&buf),
-                decode(&all, msg.body.get_fds().len())
+                decode_with(&all, msg.body.get_fds().len(), short)
             )
         }
     }
@@ -302,6 +372,39 @@ fn build_msg(p: &[&str]) -> (MarshalledMessage, u32) {
 fn op_m(p: &[&str]) -> String {
     let (msg, serial) = build_msg(p);
     marshal_and_back(&msg, serial)
+}
+
+/// `m` with a body built here from a descriptor; body bytes printed as length and crc32
+fn op_big(p: &[&str]) -> String {
+    let (msg, serial) = build_msg(p);
+    marshal_and_back_with(&msg, serial, true)
+}
+
+/// all the messages go through ONE connection, in order; a thread reads the peer end until the connection is closed
+fn op_ww(p: &[&str]) -> String {
+    use std::io::Read;
+    let built: Vec<(MarshalledMessage, u32)> = p.split(|t| *t == ";").map(build_msg).collect();
+    let with_fd = built.iter().any(|(m, _)| !m.body.get_fds().is_empty());
+    let (mut conn, mut peer) = connect_pair(with_fd);
+    // hang detector only
+    peer.set_read_timeout(Some(std::time::Duration::from_secs(120))).unwrap();
+    let reader = std::thread::spawn(move || {
+        let mut all = Vec::new();
+        let ok = peer.read_to_end(&mut all).is_ok();
+        (all, ok)
+    });
+    let mut sent = String::new();
+    for (mut msg, serial) in built {
+        msg.dynheader.serial = NonZeroU32::new(serial);
+        sent.push(if conn.send.send_message_write_all(&msg).is_ok() { 'o' } else { 'e' });
+    }
+    drop(conn);
+    let (all, ok) = reader.join().unwrap();
+    if ok {
+        format!("S:{} W:{}", sent, bhex(&all))
+    } else {
+        format!("S:{} W:hang", sent)
+    }
 }
 
 /// marshal, decode, give the DECODED message a different body, marshal again with another serial
@@ -513,6 +616,8 @@ fn main() {
             "m" => op_m(&parts[1..]),
             "r" => op_r(&parts[1..]),
             "w" => op_w(&parts[1..]),
+            "ww" => op_ww(&parts[1..]),
+            "M" => op_big(&parts[1..]),
             "g" => op_g(&unhex(parts[1])),
             "s" => op_s(&parts[1..]),
             "d" => format!("D:{}", decode(&unhex(parts[1]), parts.get(2).map(|x| x.parse().unwrap()).unwrap_or(0))),
